@@ -12,8 +12,8 @@ REQUIRED_THEOREMS = ["Sonic.Props.C07." + n for n in ["C07_tables", "C07_exponen
                                                          "C07_format", "C07_decimal_path", "C07_output", "C07_validCQ", "C07_schubfach", "C07_shortest",
                                                          "C07_roundTrips_iff_rne", "C07_roundTrips_iff_rne_signed", "C07_chk_reparse", "C07_chk_reparse_signed",
                                                          "C07_fast_chk", "C07_print_shortest_and_reparses"]]
-CONFIGS = [("avx2", "prod"), ("sse", "prod"), ("avx2", "san")]
-CONFIGS_THOROUGH = CONFIGS + [("dyn", "prod")]
+CONFIGS = [("avx2", "prod"), ("sse", "prod"), ("avx2", "san"), ("dyn", "prod")]
+CONFIGS_THOROUGH = CONFIGS + [("sse", "san")]
 RULE = ("bit patterns: for each of the 2046 finite binary exponents the smallest significand (irregular boundary), +1, the largest, and "
         "random ones; every subnormal exponent; 10^k (k=-323..308) and both neighbours; integers 0..N, powers of two and 2^53 neighbourhood; "
         "single-precision values widened; uniformly random 64-bit patterns; both signs.  distinct = distinct bit pattern; "
